@@ -47,6 +47,18 @@ class View:
             elif k == "submit":
                 if e[1] is not None and e[2] == "t":
                     self.dispatch.setdefault(e[1], t)
+        # observation: when the scheduler learnt that a node finished (wait return; inline nodes: at once)
+        self.observed: Dict[str, int] = {}
+        for t, e in enumerate(tr):
+            if e[0] == "done":
+                for x in e[2]:
+                    self.observed.setdefault(x, t)
+            elif e[0] == "partial":
+                self.observed.setdefault(e[2], t)
+            elif e[0] == "exit":
+                ent = self.enters.get(e[1])
+                if ent and tr[ent[-1]][3] != "pool":
+                    self.observed.setdefault(e[1], t)
         # nodes whose submission could not be attributed: fall back to entry
         for nid, ts in self.enters.items():
             self.dispatch.setdefault(nid, ts[0])
@@ -106,6 +118,17 @@ class View:
         nm, d = self.prog.params[k]
         return ("const", d) if d != NODEFAULT else ("missing", nm)
 
+    def observed_before(self, d: int, t: int) -> bool:
+        """like finished_before, but from the scheduler's point of view: the completion has been observed."""
+        nid = self.ids[d]
+        if nid in self.dispatch:
+            o = self.observed.get(nid)
+            ex = self.exits.get(nid)
+            return o is not None and o < t and bool(ex) and self.trace[ex[0]][3] == "ok"
+        if nid in self.deact:
+            return self.deact[nid] < t
+        return self.status[d] in ("pre", "skip")
+
     def ready(self, t: int) -> List[int]:
         out = []
         for i, st in self.status.items():
@@ -115,7 +138,7 @@ class View:
             dt = self.dispatch.get(nid)
             if dt is not None and dt < t:
                 continue
-            if all(self.finished_before(d, t) for d in self.prog.deps(i)):
+            if all(self.observed_before(d, t) for d in self.prog.deps(i)):
                 out.append(i)
         return out
 
